@@ -58,6 +58,11 @@ CHECKS = {
     ref="DESIGN.md §3 C12",
     note="'Reject' = any exception. Objects that are integers only via __index__ are not generated. Restreamed docstring argument order slip noted in DESIGN.md.",
     technique="bounded-exhaustive enumeration of law instances x inputs + Hypothesis; oracle = pairwise extensional equality (differential between equivalent constructs)"),
+ "C13": dict(
+    text="Per generated instance, exhaustively: Const over 1-byte/multi-byte/VarInt/bytes/string subs (every 1-byte input, every bit flip of longer encodings; build from None, equal values, every other value), OneOf/NoneOf/ExprValidator/Check with generated predicates over every 1-byte value in both directions (accept iff predicate, ValidationError/CheckError otherwise), Enum/FlagsEnum/Mapping with generated tables (multi-bit and overlapping masks included) over every 1-byte input and every label spelling, unknown labels -> MappingError, unmapped integers of any magnitude preserved, Mapping never returns a value outside its table. Error below all wrapper chains of depth <= 2 (31 wrappers) and random chains of depth 3-4, compared with a twin whose Error is replaced by a recording probe: probe reached => ExplicitError must escape, for parse and build.",
+    ref="DESIGN.md §3 C13",
+    note="Const.build equality is Python equality (documented). Peek does not build its inner construct (documented). Zero-width GreedyRange elements and lazy wrappers are excluded from Error chains.",
+    technique="exhaustive enumeration of one-byte domains per generated instance (Hypothesis generates instances); twin-construct differential for Error propagation"),
 }
 
 NOT_APPLICABLE = [dict(property_id=p, reason="check not yet built in this revision of /verif (planned, see DESIGN.md §3)") for p in ALL if p not in CHECKS]
